@@ -2,6 +2,7 @@
 From Coq Require Import List String ZArith Bool.
 From GG Require Import Base.Strs Model.Config Model.GoTypes Model.GoAst Model.Annots Model.Analyze Exec
                        Proofs.WalkProofs Proofs.CheckerProofs Properties.C01.
+From GG Require Proofs.DiagProofs Proofs.WholeProofs.
 Import ListNotations.
 Local Open Scope Z_scope.
 Local Open Scope string_scope.
@@ -23,6 +24,22 @@ Theorem C02_reported_iff :
 Proof.
   intros cfg p fs sup pos code Hwf. unfold x_ctor. apply ctor_diags_spec.
   intros f d Hf Hd. apply (Hwf f d); [|exact Hd]. unfold kept_files in Hf. apply filter_In in Hf. tauto.
+Qed.
+
+(* (1') END TO END: in the result of the whole per-package analysis the diagnostics with a CTOR code are exactly those of (1)
+   under the facts and the suppression the analysis computes itself *)
+Theorem C02_whole_analysis :
+  forall cfg p all own ds pos code, wf p -> x_analyze cfg p all = AOk own ds -> In code DiagProofs.CTOR_CODES ->
+    exists ops, x_ignore_ops cfg p = Some ops /\ own = x_read_all cfg p /\
+      (reported ds pos code <->
+       exists f d n, In f (kept_files cfg p) /\ In d (f_decls f) /\ In n (preorder d) /\
+                     ctor_reports (x_facts p own all) (p_path p) (ctor_ctx d) n pos code /\ x_suppressed ops code pos = false).
+Proof.
+  intros cfg p all own ds pos code Hwf Hres Hc.
+  destruct (WholeProofs.section_of_code cfg p all own ds Hres) as (ops & Ho & Hown & Hsec). exists ops. split; [exact Ho|]. split; [exact Hown|].
+  rewrite <- (C02_reported_iff cfg p (x_facts p own all) (x_suppressed ops) pos code Hwf).
+  unfold reported. split; intros (d & Hd & Hp & Hcode); exists d; (split; [|split; assumption]);
+    destruct (Hsec d) as (_ & _ & Hct & _); apply Hct; try assumption; rewrite Hcode; exact Hc.
 Qed.
 
 (* (2) "may not be instantiated here" *)
@@ -71,3 +88,4 @@ Print Assumptions C02_forbidden.
 Print Assumptions C02_context.
 Print Assumptions C02_pointer_var_never.
 Print Assumptions C02_walk.
+Print Assumptions C02_whole_analysis.
